@@ -37,7 +37,7 @@ def make_console(cfg, **over):
     from rich.console import Console
     kw = dict(file=io.StringIO(), width=cfg["width"], color_system=cfg["color_system"],
               force_terminal=cfg["terminal"], legacy_windows=cfg["legacy"], record=True, _environ={},
-              get_datetime=lambda: FIXED_TIME)
+              get_datetime=lambda: FIXED_TIME, style=cfg.get("style"))
     kw.update(over)
     return Console(**kw)
 
@@ -111,6 +111,16 @@ def apply(console, op):
         console.print(build_printable(op[1]), **op[2])
     elif k == "log":
         console.log(build_printable(op[1]))
+    elif k == "print_objects":
+        console.print(*op[1], **op[2])
+    elif k == "print_empty":
+        console.print()
+    elif k == "log_empty":
+        console.log()
+    elif k == "log_objects":
+        console.log(*op[1], style=op[2])
+    elif k == "out":
+        console.out(*op[1], **op[2])
     elif k == "rule":
         console.rule(op[1])
     elif k == "line":
@@ -139,8 +149,29 @@ def rand_op(rng, allow_capture=True):
         if p[0] == "plain":
             kw["markup"] = False
         return ["print", p, kw]
-    if r < 0.50:
+    if r < 0.46:
         return ["log", rand_printable(rng)]
+    if r < 0.50:
+        # what programs actually pass: several objects of any type, no objects at all, raw output
+        objects = [rng.choice([1, 2.5, None, True, [1, 2, 3], {"a": [1, "<b>"], "k&": None}, ("x",), "plain < & >",
+                               "[bold]markup[/bold]", "", "two\nlines", {1, 2}, b"bytes", 10 ** 30])
+                   for _ in range(rng.randint(1, 4))]
+        q = rng.random()
+        if q < 0.45:
+            kw = {}
+            if rng.random() < 0.3:
+                kw["sep"] = rng.choice(["", ", ", "\n", " & "])
+            if rng.random() < 0.2:
+                kw["style"] = rng.choice(["bold", "on blue"])
+            return ["print_objects", objects, kw]
+        if q < 0.6:
+            return ["log_objects", objects, rng.choice([None, None, "dim", "on red"])]
+        if q < 0.75:
+            return ["print_empty"]
+        if q < 0.85:
+            return ["log_empty"]
+        return ["out", [str(o) for o in objects], rng.choice([{}, {"sep": "-"}, {"end": ""}, {"style": "bold"},
+                                                                {"highlight": False}])]
     if r < 0.56:
         return ["rule", rng.choice(["", "title", "a < b & c", "漢字"])]
     if r < 0.61:
@@ -157,8 +188,24 @@ def rand_op(rng, allow_capture=True):
         subs = [rand_op(rng, False) for _ in range(rng.randint(1, 3))]
         return ["capture", [o for o in subs if not o[0].startswith("export")] or [["line", 1]]]
     if r < 0.92:
-        return ["export_text", {"clear": rng.random() < 0.5, "styles": rng.random() < 0.5}]
-    return ["export_html", {"clear": rng.random() < 0.5, "inline_styles": rng.random() < 0.5}]
+        return ["export_text", {"clear": rng.random() < 0.5, "styles": rng.random() < 0.5, "via_file": rng.random() < 0.25}]
+    return ["export_html", {"clear": rng.random() < 0.5, "inline_styles": rng.random() < 0.5, "via_file": rng.random() < 0.25}]
+
+
+def do_export(console, kind, via_file=False, **kw):
+    """export_text / export_html directly, or through save_text / save_html and the file they write."""
+    if not via_file:
+        return getattr(console, "export_" + kind)(**kw)
+    import os
+    import tempfile
+    fd, path = tempfile.mkstemp(prefix="rvc15_", suffix="." + kind)
+    os.close(fd)
+    try:
+        getattr(console, "save_" + kind)(path, **kw)
+        with open(path, "rt", encoding="utf-8", newline="") as f:
+            return f.read()
+    finally:
+        os.unlink(path)
 
 
 def visible(stream):
@@ -201,7 +248,8 @@ def op_json(op):
 def wl_histories(ctx, rng, case_no):
     cfg = {"width": rng.choice([20, 40, 80, 120]),
            "color_system": rng.choice([None, "standard", "256", "truecolor", "truecolor", "windows"]),
-           "terminal": rng.random() < 0.7, "legacy": rng.random() < 0.15}
+           "terminal": rng.random() < 0.7, "legacy": rng.random() < 0.15,
+           "style": rng.choice([None, None, None, None, "on blue", "italic", "bold red"])}
     main = make_console(cfg)
     twin = make_console(cfg)                                   # same config, never captures
     # reference for the styled export: same layout decisions (width, legacy box substitution) printed in
@@ -259,14 +307,14 @@ def wl_histories(ctx, rng, case_no):
             after_capture = ":after-capture-block" if captured_any else ""
             if k == "export_text" and not op[1]["styles"]:
                 ctx.count("mon.export_text")
-                out = main.export_text(clear=clear, styles=False)
+                out = do_export(main, "text", op[1].get("via_file"), clear=clear, styles=False)
                 if out != vis:
                     ctx.violation("export_text-differs-from-visible-file-text" + after_capture,
                                   dict(wit, export=out, visible=vis))
                     return
             elif k == "export_text":
                 ctx.count("mon.export_styled")
-                out = main.export_text(clear=clear, styles=True)
+                out = do_export(main, "text", op[1].get("via_file"), clear=clear, styles=True)
                 got = sgr.decode(out)
                 want = sgr.decode(ref.file.getvalue()[mark["ref"]:])
                 if got.unexpected:
@@ -288,7 +336,7 @@ def wl_histories(ctx, rng, case_no):
                     return
             else:
                 ctx.count("mon.export_html")
-                out = main.export_html(clear=clear, inline_styles=op[1]["inline_styles"])
+                out = do_export(main, "html", op[1].get("via_file"), clear=clear, inline_styles=op[1]["inline_styles"])
                 text = html_text(out)
                 if text != vis:
                     kind = "control-code-in-html" if text and any(ord(c) < 32 and c != "\n" for c in text) else "text-differs"
